@@ -131,7 +131,6 @@ contract_nodes_pair = Contract(
         "result == union(x, y)",
         "result in self.children and ((self.children[result][0] == x and self.children[result][1] == y) or (self.children[result][0] == y and self.children[result][1] == x))",
         # heavier subtree on the left
-        "len(self.children[result][0]) >= len(self.children[result][1])",
         PAIR_FRAME,
         "x in self.info and y in self.info and result in self.info",
         # precomputed legs are installed for intermediates only: root legs are always the
